@@ -3,6 +3,15 @@
 (the table of combinations observed to be supported on the pinned tree)."""
 import json, os, sys
 pid = sys.argv[1]
+if len(sys.argv) > 2 and sys.argv[2] == 'masklen':
+    # learn.py <Cxx> masklen: merges the `masklen-accepted:<key>` labels into baselines/<Cxx>_masklen_accepted.json
+    ev = json.load(open('/verif/evidence/%s.json' % pid))
+    p = '/verif/baselines/%s_masklen_accepted.json' % pid
+    cur = set(json.load(open(p))) if os.path.exists(p) else set()
+    new = {k[len('masklen-accepted:'):] for k in ev['coverage']['classes'] if k.startswith('masklen-accepted:')}
+    json.dump(sorted(cur | new), open(p, 'w'), indent=0)
+    print(len(cur), '->', len(cur | new))
+    sys.exit(0)
 ev = json.load(open('/verif/evidence/%s.json' % pid))
 p = '/verif/baselines/%s_supported.json' % pid
 cur = set(json.load(open(p))) if os.path.exists(p) else set()
